@@ -13,7 +13,8 @@ TECHNIQUE = ("bounded-exhaustive enumeration of profiler-step layouts x event pl
 RULE = ("every layout of 0..3 disjoint profiler steps with even endpoints in [0,8] (touching or with gaps, "
         "non-contiguous numbering) x every set of <=D units placed at every integer position 0..9 (unit = host "
         "op | launch call with its kernel starting 1 or 3 later | kernel without launch call | event-synchronize "
-        "call with its Event Sync record on stream -1) x include_last_profiler_step in {False,True} x file order "
+        "call with its Event Sync record on stream -1 | host event whose name merely contains or starts with 'ProfilerStep' | "
+        "zero-duration op | op on a second host thread) x include_last_profiler_step in {False,True} x file order "
         "{as generated, reversed}; 2-rank slice with a skewed second rank. non-trivial = at least two steps and "
         "at least one event on each side of the cut-off, or an event on a step boundary")
 ASSUMPTIONS = [
@@ -49,6 +50,9 @@ def units(kind: str) -> List[List[Any]]:
         u += [["op", p] for p in P] + [["launch", p, 1] for p in P]
     if kind == "all":
         u += [["launch", p, 3] for p in P] + [["orphan", p] for p in P] + [["esync", p] for p in P]
+        # host events whose names merely resemble a profiler step, a zero-duration op, an op on a second thread
+        u += [["named", p, nm] for p in (1, 5, 9) for nm in ("my_ProfilerStep_hook", "ProfilerStepHook")]
+        u += [["op0", p] for p in (0, 2, 4, 8)] + [["op_t2", p] for p in (1, 4, 9)]
     return u
 
 
@@ -62,6 +66,12 @@ def build(layout, us, skew=0) -> List[Dict[str, Any]]:
         p = u[1]
         if u[0] == "op":
             evs.append(kineto.cpu_op("aten::mul", t0 + p, 1, ext=corr))
+        elif u[0] == "named":
+            evs.append(kineto.cpu_op(u[2], t0 + p, 1, ext=corr))
+        elif u[0] == "op0":
+            evs.append(kineto.cpu_op("aten::zero", t0 + p, 0, ext=corr))
+        elif u[0] == "op_t2":
+            evs.append(kineto.cpu_op("aten::other_thread", t0 + p, 1, ext=corr, tid=101))
         elif u[0] == "launch":
             evs.append(kineto.runtime("cudaLaunchKernel", t0 + p, 1, corr))
             evs.append(kineto.kernel("kern_a", t0 + p + u[2], 2, 7, corr))
@@ -102,8 +112,7 @@ STEP_RE = re.compile(r"ProfilerStep\s*#\s*(\d+)")
 
 
 def expected(ranks_events, include_last: bool):
-    nsteps = len({e["name"] for evs in ranks_events.values() for e in evs
-                  if e.get("cat") == "user_annotation" and "ProfilerStep" in e["name"]})
+    nsteps = len({e["name"] for evs in ranks_events.values() for e in evs if STEP_RE.match(e.get("name", ""))})
     out = {}
     for r, evs in ranks_events.items():
         rows = refmodel.parse_rows(evs)
